@@ -40,11 +40,12 @@ META = {
         "cross-reference stream (dictionary entries and payload) and every stream's /Length are fault sites too; /Prev additionally "
         "gets the value 'offset of its own section'. structural faults: every dictionary entry, array element, stream-dictionary "
         "entry, top-level object and trailer entry x {null,int,real,name,string,array,dict,boolean,ref->self,ref->missing,"
-        "ref->ancestor(cycle), empty array, empty dict, 2**70, -1} (the representative of the value's own type skipped) plus key removal; payload faults: every stream truncated at "
+        "ref->ancestor(cycle), empty array, empty dict, 2**70, 2**63-1, 10**400, a 400-digit real, -1} (the representative of the value's own type skipped) plus key removal; payload faults: every stream truncated at "
         "every length and emptied (thorough: one byte replaced at every position by 00,FF,'<','('); file truncated at every byte. "
         "One fault per execution, each run through the listed entry points under a counted work budget (sys.monitoring "
         "PY_START+JUMP events <= 50 x the undamaged seed's count + 100000 + 2000 x file length). non-trivial = the damaged file differs from the seed "
-        "and the outcome was judged; distinct outcomes = (entry point, outcome class, exception type, raising function). "
+        "and the outcome was judged; a 'scaling' family runs valid documents of 16/64/256 pages (classic table; everything in one "
+        "object stream) and requires that quadrupling the size multiplies the counted events by at most 6; distinct outcomes = (entry point, outcome class, exception type, raising function). "
         "states = damaged documents reached from a seed by one fault (exhaustive single-fault frontier of the fault injector), "
         "transitions = fault applications, traces = executions of an entry point on a damaged document, each judged."
     ),
@@ -61,16 +62,16 @@ META = {
 }
 
 KINDS = ["null", "int", "real", "name", "string", "array", "dict", "boolean", "refself", "refmissing", "refancestor", "remove",
-         "emptyarray", "emptydict", "bigint", "negint"]
+         "emptyarray", "emptydict", "bigint", "negint", "maxint", "hugeint", "hugereal"]
 # extreme values of a type: applied even where the site already has that type
-EXTREME = {"emptyarray": "array", "emptydict": "dict", "bigint": "int", "negint": "int"}
+EXTREME = {"emptyarray": "array", "emptydict": "dict", "bigint": "int", "negint": "int", "maxint": "int", "hugeint": "int", "hugereal": "real"}
 
 
 def kind_value(kind: str, num: int, ancestor: int) -> Any:
     return {
         "null": None, "int": 7, "real": 1.5, "name": N("Zz"), "string": b"zz", "array": [1, b"s"], "dict": {"Zz": 1},
         "boolean": True, "refself": Ref(num), "refmissing": Ref(9999), "refancestor": Ref(ancestor),
-        "emptyarray": [], "emptydict": {}, "bigint": 2**70, "negint": -1,
+        "emptyarray": [], "emptydict": {}, "bigint": 2**70, "negint": -1, "maxint": 2**63 - 1, "hugeint": 10**400, "hugereal": Raw(b"9" * 400 + b".5"),
     }[kind]
 
 
@@ -383,9 +384,46 @@ def judge(st, name: str, fault: Tuple, data: bytes, entries: List[str], seed_byt
                          f"{cls} {detail} after {n} events (budget {budget})", f"{entry} on seed '{name}' with fault {fault!r}")
 
 
+def scaling_doc(n: int, layout: str) -> bytes:
+    """n one-glyph pages; layout 'objstm' packs catalog, page tree and pages in one object stream"""
+    d = Doc()
+    f1 = d.add({"Type": N("Font"), "Subtype": N("Type1"), "BaseFont": N("Helvetica")})
+    cat, pages = d.reserve(), d.reserve()
+    content = d.add(Stream({}, b"BT /F1 9 Tf 10 10 Td (x) Tj ET"))
+    kids = [d.add({"Type": N("Page"), "Parent": pages, "MediaBox": [0, 0, 50, 50], "Resources": {"Font": {"F1": f1}}, "Contents": content}) for _ in range(n)]
+    d.set(cat, {"Type": N("Catalog"), "Pages": pages})
+    d.set(pages, {"Type": N("Pages"), "Kids": kids, "Count": n})
+    if layout == "objstm":
+        return d.write(cat, xref="stream", objstm=[cat.num, pages.num, f1.num] + [k.num for k in kids])
+    return d.write(cat)
+
+
+def check_scaling(st) -> None:
+    """work on VALID documents grows in proportion to their size: quadrupling the number of pages must not
+    multiply the counted events by more than 6 (a reparse-per-object defect gives ~16)"""
+    for layout in ("table", "objstm"):
+        for entry in ("text", "xml"):
+            ev = {}
+            for n in (16, 64, 256):
+                cls, detail, cnt = run_entry(entry, scaling_doc(n, layout), 10**9)
+                if cls != "ok":
+                    raise RuntimeError(f"scaling document does not extract: {cls} {detail}")
+                ev[n] = cnt
+            st.states += 3
+            st.transitions += 3
+            st.traces += 3
+            st.case(("scaling", layout, entry), outcome=("scaling", layout, entry, ev[64] * 10 // ev[16], ev[256] * 10 // ev[64]))
+            st.add("scaling_ratio_x1000_%s_%s" % (layout, entry), ev[256] * 1000 // ev[64])
+            for a, b in ((16, 64), (64, 256)):
+                if ev[b] > 6 * ev[a]:
+                    st.violation(f"C13/work-superlinear:{layout}", {"scaling": True, "layout": layout, "entry": entry, "n": [a, b]}, f"events({b} pages) <= 6 x events({a} pages)",
+                                 f"{ev[a]} -> {ev[b]} events", "work grows faster than the input")
+    st.sample({"family": "scaling", "pages": [16, 64, 256], "layouts": ["table", "objstm"]})
+
+
 def shards(tier):
     t = TIERS[tier]
-    out = []
+    out = [("scaling",)]
     for name in t["seeds"]:
         fs = structural_faults(name)
         for i in range(0, len(fs), 120):
@@ -406,6 +444,9 @@ def shards(tier):
 
 def run_shard(shard, tier, st):
     t = TIERS[tier]
+    if shard[0] == "scaling":
+        check_scaling(st)
+        return
     name = shard[1]
     seed_bytes = S.build(name)
     if shard[0] == "struct":
@@ -445,6 +486,12 @@ def run_shard(shard, tier, st):
 
 
 def replay(case):
+    if case.get("scaling"):
+        from mc.core import Stats
+
+        st = Stats()
+        check_scaling(st)
+        return [{"signature": v["signature"], "expected": v["expected"], "observed": v["observed"]} for v in st.violations]
     budget = case["budget"]
     cls, detail, n = run_entry(case["entry"], case["data"], budget)
     if cls in ("leak", "recursion", "work"):
